@@ -18,14 +18,14 @@ pub fn prop() -> Prop {
     Prop {
         id: "C02",
         level: "fault_enumeration",
-        rule: "fault cases = a satisfying GenAir instance over one of 12 (field, hasher) instances with generated options, plus one fault: (a) a single main-trace cell changed at a step of a chosen class (first row, interior, n-k-1, n-k, exempt rows, an asserted cell of each assertion kind) or an auxiliary cell changed while the auxiliary segment is built; (b) a whole row or a whole column replaced; (c) the verifier given other public inputs: an asserted value changed, or the tag (an element that feeds only the public-coin seed); (d) the verifier's AIR changed (a constraint coefficient). Oracle: for faults the independent checker classifies as unsatisfying (and for all of c, d) the release-profile prover pipeline either fails or yields a proof that verify rejects; acceptance is the only violation. Faults the checker classifies as still satisfying (exempt, unasserted cells) must verify (the two-directional part). Non-trivial = the fault is classified unsatisfying (or is a public-input / AIR perturbation); distinct = hash of (instance, spec, options, fault).",
+        rule: "fault cases = a satisfying GenAir instance over one of 12 (field, hasher) instances with generated options, plus one fault: (a) a single main-trace cell changed at a step of a chosen class (first row, interior, n-k-1, n-k, exempt rows, an asserted cell of each assertion kind) or an auxiliary cell changed while the auxiliary segment is built; (b) a whole row or a whole column replaced; (c) the verifier given other public inputs: an asserted value changed, or the tag (an element that feeds only the public-coin seed); (d) the verifier's AIR changed (a constraint coefficient). Oracle: for faults the independent checker classifies as unsatisfying (and for all of c, d) the release-profile prover pipeline either fails or yields a proof that verify rejects; acceptance is the only violation. Faults the checker classifies as still satisfying (exempt, unasserted cells) must verify (the two-directional part). Non-trivial = the fault is classified unsatisfying (or is a public-input / AIR perturbation); distinct = hash of (instance, spec, options, fault). Sub-check examples_wrong_inputs: every bundled example AIR (generated size, hasher, options) proves its true statement; the verifier given the example's documented WRONG public inputs (Example::verify_with_wrong_inputs) must reject the proof.",
         assumptions: vec![
             "soundness of the oracle: on a false statement the honest pipeline produces a non-polynomial quotient whose truncated composition columns disagree with the verifier's evaluation at the out-of-domain point except with probability <= degree/|F| <= 2^-40 for every supported field, independent of the number of queries",
             "auxiliary-cell faults are classified by the rule 'step <= n - k or asserted => unsatisfying' (the cell is the next-state of an enforced transition or asserted), because the protocol's random elements are not known to the harness at fault time",
             "main-cell faults are classified on the main segment only: the auxiliary segment is rebuilt consistently from the corrupted main trace by the prover",
         ],
-        subs: vec![Sub::gen("faults", faults, 500, 20_000, 300_000)],
-        required: vec!["fault:cell_first", "fault:cell_interior", "fault:cell_last_enforced", "fault:cell_first_exempt_row", "fault:cell_exempt", "fault:asserted_cell", "fault:aux_cell", "fault:row", "fault:column", "fault:pub_asserted_value", "fault:pub_tag", "fault:air_coefficient", "outcome:rejected", "outcome:verified_still_valid", "ext:1", "ext:2", "ext:3", "field:f62", "field:f64", "field:f128"],
+        subs: vec![Sub::gen("faults", faults, 500, 20_000, 300_000), Sub::gen("examples_wrong_inputs", examples_wrong_inputs, 200, 400, 10_000)],
+        required: vec!["fault:cell_first", "fault:cell_interior", "fault:cell_last_enforced", "fault:cell_first_exempt_row", "fault:cell_exempt", "fault:asserted_cell", "fault:aux_cell", "fault:row", "fault:column", "fault:pub_asserted_value", "fault:pub_tag", "fault:air_coefficient", "outcome:rejected", "outcome:verified_still_valid", "example_wrong_inputs_rejected", "ext:1", "ext:2", "ext:3", "field:f62", "field:f64", "field:f128"],
         required_thorough: vec![],
     }
 }
@@ -199,5 +199,39 @@ where
             }
         },
         VerifyOutcome::Panic(pn) => Err(Fail::new(format!("verifier-{}", pn.key()), format!("verifier panicked at {}: {} ({ctx})", pn.location, pn.message))),
+    }
+}
+
+
+// BUNDLED EXAMPLES: A TRUE PROOF DOES NOT VERIFY AGAINST OTHER PUBLIC INPUTS
+// ================================================================================================
+
+fn examples_wrong_inputs(s: &mut Src, rec: &mut Rec) -> CaseResult {
+    let case = match crate::examples::gen_example(s, rec) {
+        Ok(c) => c,
+        Err(_) => {
+            rec.class("prover_declined");
+            return Ok(());
+        },
+    };
+    let ctx = format!("example {} (size {}, trace length {}, hasher {}); options {}", case.name, case.size, case.trace_len, case.hasher, case.opt.describe());
+    rec.set_fp(&(case.name, case.size, case.hasher, format!("{:?}", case.opt)));
+    rec.describe(|| json!({"example": case.name, "size": case.size, "trace_len": case.trace_len, "hasher": case.hasher, "options": case.opt.describe()}));
+    let proof = match catch(|| case.example.prove()) {
+        Ok(p) => p,
+        Err(_) => {
+            rec.class("prover_declined");
+            return Ok(());
+        },
+    };
+    rec.nontrivial();
+    match catch(|| case.example.verify_with_wrong_inputs(proof)) {
+        Ok(Err(_)) => {
+            rec.class("example_wrong_inputs_rejected");
+            rec.class("outcome:rejected");
+            Ok(())
+        },
+        Ok(Ok(())) => Err(Fail::new("example-wrong-inputs-accepted", format!("the verifier ACCEPTED the proof of a bundled example against different public inputs ({ctx})"))),
+        Err(pn) => Err(Fail::new(format!("verifier-{}", pn.key()), format!("verifier panicked at {}: {} ({ctx})", pn.location, pn.message))),
     }
 }
